@@ -157,7 +157,8 @@ func VH_C03_TagList() {
 // VH_C03_TagOps: tag move, delete by tag, delete by digest through the handlers.
 func VH_C03_TagOps() {
 	vhReset()
-	s := New(vhConf(vhStore("dir")))
+	stKind := vhStore("dir")
+	s := New(vhConf(stKind))
 	img1, img2 := vhTwoImages(s, "r")
 	d1 := digest.Canonical.FromBytes(img1)
 	d2 := digest.Canonical.FromBytes(img2)
@@ -212,6 +213,14 @@ func VH_C03_TagOps() {
 			} else {
 				vh.Assert(rec.Status() == 404, "C03.deldigest-unknown")
 			}
+		}
+		// the tag map is durable state: for the directory store the view below may also be
+		// taken by a new server opened on the same directory
+		if stKind == config.StoreDir && vh.Bool("restart") {
+			_ = s.Close()
+			s = New(vhConf(stKind))
+			vh.Tag("restart", "true")
+			vh.Cover("C03.after-restart")
 		}
 		// the API view equals the model: every tag resolves to its last push, deleted
 		// tags are gone, manifests stay addressable by digest until deleted by digest
